@@ -394,8 +394,13 @@ def r_internalload(root):
     mrp = model.get("._tx_model_repository")
     ok = k == "ret" and v is model and tab.get("/abs/models/a.mdl") is model and isinstance(mrp, pyeval.Inst) and mrp.get(".all_models") is rp.get(".all_models") and model.get("._tx_model_params") is params
     rep("global repository, no caller's callback: the parsed model is registered", ok, "with a global repository and no callback the load %s; the repository's table holds %s, the model's own repository %s the table, its parameters are %s; documented: the model is registered under its file name in the table of all models, gets a repository that shares that table, and the caller's parameters" % ("returns the model" if k == "ret" and v is model else ("raises %s" % v if k == "raise" else "returns something else"), sorted(tab), "shares" if isinstance(mrp, pyeval.Inst) and mrp.get(".all_models") is rp.get(".all_models") else "does not share", "the caller's" if model.get("._tx_model_params") is params else "not the caller's"), props_=("C17", "C27"))
-    for what, cached in (("a cached file", HS({".kind": "model", ".tag": "cached"})), ("a cached file whose model object is falsy (user class defining __len__)", _Falsy({".kind": "model", ".tag": "cached falsy"}))):
-        k, v, ev, model, params, rp = run(None, callback=False, repo=True, cached=cached)
+    cases_c = [("a cached file", HS({".kind": "model", ".tag": "cached"}), dict(callback=False)), ("a cached file whose model object is falsy (user class defining __len__)", _Falsy({".kind": "model", ".tag": "cached falsy"}), dict(callback=False))]
+    # the cache is consulted for every load: direct or nested, with or without a caller's callback, with or without a text given by the caller
+    for main_ in (True, False):
+        for cb_ in (True, False):
+            for txt_ in (None, GIVEN): cases_c.append(("a cached file (is_main_model=%s, %s callback, %s)" % (main_, "with a" if cb_ else "no", "text given" if txt_ else "no text given"), HS({".kind": "model", ".tag": "cached"}), dict(callback=cb_, main=main_, model_str=txt_)))
+    for what, cached, kw_ in cases_c:
+        k, v, ev, model, params, rp = run(kw_.get("model_str"), callback=kw_.get("callback", False), repo=True, cached=cached, main=kw_.get("main", True))
         ok = k == "ret" and v is cached and not [e for e in ev if e[0] in ("parse", "open")] and rp[".all_models"][".filename_to_model"].get("/abs/models/a.mdl") is cached
         rep("global repository: %s is returned without parsing" % what, ok, "with a global repository that holds /abs/models/a.mdl (%s) the load %s after the steps %s; documented: that very model is returned, nothing is read or parsed" % (what, "returns the cached model" if k == "ret" and v is cached else ("raises %s" % v if k == "raise" else "returns another model"), steps(ev)), props_=("C17", "C16"))
     return inst, out
